@@ -109,7 +109,33 @@ func genC14(r *Rng, e *Emitter, n int) {
 					inFlat = append(inFlat, flat[j*stride:(j+1)*stride]...)
 				}
 			}
-			e.emit("C14.points", runSx(stride, inFlat), guard(func() string {
+			// ... and each point may have a layout of its own (the mean is of X and Y)
+			mixed := which == 3 && r.chance(1, 2)
+			inStride := stride
+			var mixedPts []*geom.Point
+			if mixed {
+				inStride = 2
+				inFlat = nil
+				for _, j := range perm {
+					st := 2 + r.Intn(5)
+					c := []float64{pts[j][0], pts[j][1]}
+					for o := 2; o < st; o++ {
+						c = append(c, r.anyBits())
+					}
+					lay := layoutForStride(st)
+					if st == 3 && r.chance(1, 2) {
+						lay = geom.XYM
+					}
+					mixedPts = append(mixedPts, geom.NewPointFlat(lay, c))
+					inFlat = append(inFlat, pts[j][0], pts[j][1])
+				}
+				e.tally("points-of-mixed-layouts")
+			}
+			e.emit("C14.points", runSx(inStride, inFlat), guard(func() string {
+				if mixed {
+					pt = xy.PointsCentroid(mixedPts[0], mixedPts[1:]...)
+					return okPt(pt)
+				}
 				switch which {
 				case 0:
 					pt = xy.MultiPointCentroid(geom.NewMultiPointFlat(l, flat))
@@ -148,7 +174,7 @@ func genC14(r *Rng, e *Emitter, n int) {
 				return okPt(pt)
 			}))
 			if pt != nil {
-				e.watch("C14.points", runSx(stride, inFlat), func() string { return okPt(pt) })
+				e.watch("C14.points", runSx(inStride, inFlat), func() string { return okPt(pt) })
 			}
 		case k < 4: // lines
 			nl := 1 + r.Intn(3)
